@@ -31,7 +31,8 @@ def floors(tier):
             "kind:curated": 300 if q else 5000, "kind:corpus": 40 if q else 200, "with_load_node": 300 if q else 4000,
             "no_dependency": 20 if q else 300, "chain_ge_3": 300 if q else 4000, "leading_load": 30 if q else 400,
             "last_is_most_expensive": 100 if q else 1500, "monitor:get_critical_path": 4000 if q else 55000, "line_number_gaps": 300 if q else 4000,
-            "report_cp_column_checked": 1200 if q else 18000}
+            "report_cp_column_checked": 1200 if q else 18000, "store_load_kernels": 80 if q else 1000,
+            "edge_weights_checked": 8000 if q else 100000}
 
 
 def plan(tier, seed):
@@ -255,6 +256,12 @@ def synth_case(isa, vocab, path, ipath, mseed, kseed, R, sample=True):
             p1 = D.Pool(krng, isa, ng=1, nv=1)
             p1.g, p1.v = [pool.g[i % len(pool.g)]], [pool.v[i % len(pool.v)]]
             kernel_ast.append(D.instantiate(krng, isa, f, p1))
+    elif krng.random() < 0.2 and any(v["name"].startswith("st") for v in vocab):
+        # chains through memory: a store and the loads that read it back (forwarding latency on those edges)
+        from . import c06
+
+        kernel_ast, _, _ = c06.stl_kernel(krng, isa, vocab, curated=False)
+        R.count("store_load_kernels")
     else:
         kernel_ast = D.rand_kernel(krng, isa, vocab, n)
     flags = krng.random() < 0.3
